@@ -405,7 +405,7 @@ func (c *checker) runConcurrent(mode string, p *httpin.Plugin, reqs []reqSpec, s
 				q.done = true
 				q.last = k
 			}
-		case <-time.After(20 * time.Second):
+		case <-time.After(120 * time.Second):
 			// the request neither finished nor arrived at its next Read (it waits for something no request will do)
 			c.stuck = true
 			q.done = true
@@ -671,7 +671,7 @@ func (c *checker) runCase(tc *tcase) {
 	}
 	if c.stuck {
 		c.viol("stuck", c.feats(tc), func() string {
-			return fmt.Sprintf("a request neither finished nor asked for more body data within 20 s of real time (lock-step run): reqs=%+v pre=%+v schedule=%v", tc.Reqs, tc.Pre, tc.Schedule)
+			return fmt.Sprintf("a request neither finished nor asked for more body data within 120 s of real time (lock-step run): reqs=%+v pre=%+v schedule=%v", tc.Reqs, tc.Pre, tc.Schedule)
 		}, tc)
 		r.Cap("a request goroutine got stuck; the enumeration of this shard stops here")
 		return
